@@ -63,6 +63,12 @@ def c18_runs(tier, scale):
     return [("c18", [60 * scale, 0], None), ("c18", [40 * scale, 0], None)]
 
 
+def c19_runs(tier, scale):
+    if tier == "thorough":
+        return [("c19", [40 * scale], None) for _ in range(8)]
+    return [("c19", [4 * scale], None)]
+
+
 PROPS = {
     "C01": {
         "lean_modules": ["AvroProofs.C01"],
@@ -202,5 +208,25 @@ PROPS = {
         "trusted_base": DATUM_TB + ["the canonical form (input of the fingerprint) is taken from the crate here; its conformance is C12's subject",
                                     "single-object marker bytes and fingerprint byte order are extracted from headers.rs by the translator"],
         "assumptions": [],
+    },
+    "C19": {
+        "lean_modules": ["AvroProofs.C19"],
+        "theorems": ["Avro.C19.first_wins", "Avro.C19.never_changes", "Avro.C19.run_keeps", "Avro.C19.limit_enforced",
+                     "Avro.C19.uniform_limit", "Avro.C19.one_cell_per_setting", "Avro.C19.atomic_ops_only"],
+        "harness": c19_runs,
+        "projection": "okerr",
+        "nontrivial": lambda l: True,
+        "rule": "fresh child processes (the settings are set once per process): N in {2,4,8,16} threads race from a barrier with randomised spins to set "
+                "and/or first-use a setting {max allocation, serde human-readable, schema-name validator, enum-symbol validator}; each logs its proposal "
+                "and what it observed; the log (winner first) is replayed through the OnceCell model and must produce the same reports; plus declared "
+                "lengths at limit-1, limit, limit+1, limit/size_of +-1, 2^40, i64::MAX under limits {0,1,4096,65536,usize::MAX} through the real "
+                "decoder vs the model decoder.  Schedule exploration on the real code is SAMPLING (labelled so); the theorems quantify over all schedules.",
+        "trusted_base": ["atomicity of std::sync::OnceLock::{get_or_init,set} (each operation of the model is one atomic step)",
+                         "translator: regular-expression extraction of limit reads and OnceLock statics"],
+        "partial": [{"theorem": "Avro.C19.first_wins",
+                     "excluded_by": "holds for the model cell; that the crate's settings ARE such cells is the translator-fed instances (one cell per setting, "
+                                    "only get_or_init/set, one default) + the race sampling; namespace / field-name validators and the schemata comparator are "
+                                    "covered by the translator instances only (not raced in the harness)"}],
+        "assumptions": ["OnceLock atomicity"],
     },
 }
